@@ -2163,19 +2163,54 @@ C_P_ALL = 'PhiTable iofv / etas / etcs hold, per individual ID, the printed OBJ,
 PHI_IDS = [1, 5, 12]
 
 
+# kinds of phi lines.  'full': no zero anywhere; 'allzero': the line of an individual without observations;
+# the others are lines of individuals WITH observations that contain exact zeros in some columns:
+#   eta_fix_first / eta_fix_last   one ETA has its OMEGA fixed to 0: ETA(k) and every ETC(k,*) / ETC(*,k) are zero
+#   etc_offdiag                    diagonal OMEGA / IOV structure: the off-diagonal ETC entries are zero
+#   fo                             first order evaluation: all ETAs zero, ETC and OBJ are not
+#   obj0                           the individual objective function value happens to be exactly zero
+#   only_obj                       every ETA and ETC is zero, OBJ is not
+#   one_etc                        a single non-zero cell (the last ETC), OBJ zero too
+PHI_ROW_KINDS = ['full', 'allzero', 'eta_fix_first', 'eta_fix_last', 'etc_offdiag', 'fo', 'obj0', 'only_obj', 'one_etc']
+
+
+def _phi_zero_cells(kind, n, e, c):
+    """labels that are printed as exact zeros in a line of that kind, and whether OBJ is zero"""
+    etas = [f'{e}({i})' for i in range(1, n + 1)]
+    etcs = [(i, j) for i in range(1, n + 1) for j in range(1, i + 1)]
+    lab = lambda ij: f'{c}({ij[0]},{ij[1]})'  # noqa
+    if kind == 'full':
+        return set(), False
+    if kind == 'allzero':
+        return set(etas) | set(map(lab, etcs)), True
+    if kind in ('eta_fix_first', 'eta_fix_last'):
+        k = 1 if kind == 'eta_fix_first' else n
+        return {f'{e}({k})'} | {lab(ij) for ij in etcs if k in ij}, False
+    if kind == 'etc_offdiag':
+        return {lab(ij) for ij in etcs if ij[0] != ij[1]}, False
+    if kind == 'fo':
+        return set(etas), False
+    if kind == 'obj0':
+        return set(), True
+    if kind == 'only_obj':
+        return set(etas) | set(map(lab, etcs)), False
+    if kind == 'one_etc':
+        return set(etas) | set(map(lab, etcs[:-1])), True
+    raise ValueError(kind)
+
+
 def _phi_spec(cfg, number):
-    n, N, zero, phc, vs = cfg['netas'], cfg['nind'], cfg['zero'], cfg['phc'], cfg['vs']
+    n, N, zero, phc, vs = cfg['netas'], cfg['nind'], cfg.get('zero'), cfg['phc'], cfg['vs']
     e, c = ('PHI', 'PHC') if phc else ('ETA', 'ETC')
     etas = [f'{e}({i})' for i in range(1, n + 1)]
     etcs = [f'{c}({i},{j})' for i in range(1, n + 1) for j in range(1, i + 1)]
+    kinds = cfg.get('rows') or [('allzero' if k == zero else 'full') for k in range(N)]
     rows = []
     for k in range(N):
-        if k == zero:
-            cells = {lab: '0.00000E+00' for lab in etas + etcs}
-            obj = '0.0000000000000000'
-        else:
-            cells = {lab: _tok(vs * 5 + number + k * 7 + j * 3) for j, lab in enumerate(etas + etcs)}
-            obj = OBJTOKENS[(vs + number + k) % len(OBJTOKENS)]
+        zeros, obj0 = _phi_zero_cells(kinds[k], n, e, c)
+        cells = {lab: ('0.00000E+00' if lab in zeros else _tok(vs * 5 + number + k * 7 + j * 3))
+                 for j, lab in enumerate(etas + etcs)}
+        obj = '0.0000000000000000' if obj0 else OBJTOKENS[(vs + number + k) % len(OBJTOKENS)]
         rows.append((k + 1, PHI_IDS[k], cells, obj))
     return dict(number=number, etas=etas, etcs=etcs, rows=rows, n=n)
 
@@ -2248,6 +2283,22 @@ def _phi_inputs(tier):
                         cfg = dict(netas=netas, nind=nind, zero=zero, phc=phc, vs=vs)
                         dom.append(dict(tables=[cfg]))
                         dom.append(dict(tables=[cfg, dict(cfg, vs=vs + 1, zero=None)]))
+    # lines with exact zeros in some but not all columns, mixed with full and all-zero lines (appended: the
+    # index of the inputs above is the size order of reported cases)
+    thorough = tier == 'thorough'
+    few = ['full', 'allzero', 'eta_fix_last', 'fo']
+    for netas in (1, 2, 3):
+        for nind in (1, 2, 3):
+            kinds = PHI_ROW_KINDS if (nind <= 2 or thorough) else few
+            for rows in itertools.product(kinds, repeat=nind):
+                if all(r in ('full', 'allzero') for r in rows):
+                    continue
+                for phc in (False, True):
+                    for vs in ((0, 1) if thorough else (0,)):
+                        cfg = dict(netas=netas, nind=nind, rows=list(rows), phc=phc, vs=vs)
+                        dom.append(dict(tables=[cfg]))
+                        if nind <= 2:
+                            dom.append(dict(tables=[dict(cfg, rows=['full'] * nind, vs=vs + 1), cfg]))
     return dom
 
 
@@ -2275,6 +2326,55 @@ def _etok(x):
     return '%.5E' % x
 
 
+def _fixset(file_order, ntheta, omega, fixed):
+    """labels of the FIXed parameters (all-zero rows and columns of a cov/cor/coi file).
+    0-3: none / the last theta / one omega / sigma;  4-6: several at once"""
+    one_omega = file_order[-1] if omega == 'diag1' else 'OMEGA(2,1)'
+    return {0: [], 1: [file_order[ntheta - 1]], 2: [one_omega], 3: ['SIGMA(1,1)'],
+            4: ['THETA1', 'SIGMA(1,1)'],
+            5: [x for x in file_order if x.startswith('OMEGA')],
+            6: [x for x in file_order if x.startswith('THETA')] + [one_omega]}[fixed]
+
+
+def _is_pd(m):
+    """Cholesky in plain floats"""
+    n = len(m)
+    L = [[0.0] * n for _ in range(n)]
+    for i in range(n):
+        for j in range(i + 1):
+            s = m[i][j] - sum(L[i][k] * L[j][k] for k in range(j))
+            if i == j:
+                if s <= 0:
+                    return False
+                L[i][i] = math.sqrt(s)
+            else:
+                L[i][j] = s / L[j][j]
+    return True
+
+
+def _cancel_matrix(n, r, vs, d):
+    """symmetric positive definite n x n matrix (n >= 2) of dyadic rationals - exact in the printed 1PE13.5
+    tokens - in which no entry of row r is zero but the row (and column) sums to exactly zero in floating
+    point: m[r][r] = d, the other entries of the row are -d/2, -d/4, ... (adding up to -d).  The other
+    diagonal entries are 4d or 6d, the other off-diagonal entries +-d/16."""
+    assert n >= 2 and 0 <= r < n
+    w = [2.0 ** -(k + 1) for k in range(n - 1)]
+    w[-1] *= 2
+    others = [j for j in range(n) if j != r]
+    if vs % 2:
+        others = others[::-1]
+    m = [[0.0] * n for _ in range(n)]
+    m[r][r] = d
+    for wgt, j in zip(w, others):
+        m[r][j] = m[j][r] = -d * wgt
+    for a in others:
+        m[a][a] = d * (4 + 2 * (a % 2))
+        for b in others:
+            if a < b:
+                m[a][b] = m[b][a] = d / 16 * (-1) ** (a + b + vs)
+    return m
+
+
 def _render_matrix(file_order, live, mat_tokens, number=1):
     """mat_tokens: dict (a,b) -> token for live labels; other cells zero"""
     lines = [_title(number, METHODS[0][0], None, None), _header(['NAME'] + file_order)]
@@ -2299,6 +2399,43 @@ def _inv(m):
     return [row[n:] for row in a]
 
 
+def _three_matrices(n, vs, cancel=None):
+    """(cov, cor with the standard errors on the diagonal, coi = cov^-1) as written by NONMEM for one positive
+    definite matrix.  cancel = [file, r]: the matrix printed in that file ('cov', 'cor' or 'coi') is a
+    _cancel_matrix whose row r sums to exactly zero; the other two are derived from it."""
+    if cancel is None:
+        cov = _pd_matrix(n, vs)
+        coi = _inv(cov)
+    else:
+        which, r = cancel
+        base = _cancel_matrix(n, r, vs, 0.5 if which == 'cor' else 0.25)
+        if which == 'cov':
+            cov, coi = base, _inv(base)
+        elif which == 'coi':
+            cov, coi = _inv(base), base
+        else:
+            cov = [[base[i][i] * (1.0 if i == j else base[i][j]) * base[j][j] for j in range(n)] for i in range(n)]
+            coi = _inv(cov)
+        if not _is_pd(cov):
+            raise AssertionError(f'not positive definite: {cov}')
+    se = [math.sqrt(cov[i][i]) for i in range(n)]
+    cor = [[se[i] if i == j else cov[i][j] / (se[i] * se[j]) for j in range(n)] for i in range(n)]
+    if cancel is not None and cancel[0] == 'cor':
+        cor = base
+    return cov, cor, coi
+
+
+def _assert_cancels(file_order, live, toks, r):
+    """precondition of the cancelling cases: the printed row (and column) of the r-th estimated parameter has
+    no zero among the estimated parameters and adds up to exactly 0.0"""
+    a = live[r]
+    row = [float(toks.get((a, b), '0.00000E+00')) for b in file_order]
+    col = [float(toks.get((b, a), '0.00000E+00')) for b in file_order]
+    if any(float(toks[(a, b)]) == 0 for b in live) or sum(row) != 0.0 or sum(col) != 0.0 or \
+            sum(reversed(row)) != 0.0:
+        raise AssertionError(f'row {a} does not cancel: {row}')
+
+
 def _cov_check(inp):
     import tempfile
 
@@ -2308,19 +2445,17 @@ def _cov_check(inp):
 
     file_order, parsed, ren = _par_labels(inp['ntheta'], inp['omega'])
     ntheta = inp['ntheta']
-    fixset = {0: [], 1: [file_order[ntheta - 1]], 2: [file_order[-1] if inp['omega'] == 'diag1' else 'OMEGA(2,1)'],
-              3: ['SIGMA(1,1)']}[inp['fixed']]
+    fixset = _fixset(file_order, ntheta, inp['omega'], inp['fixed'])
     live = [lab for lab in file_order if lab not in fixset]
     n = len(live)
-    cov = _pd_matrix(n, inp['vs'])
-    se = [math.sqrt(cov[i][i]) for i in range(n)]
-    cor = [[se[i] if i == j else cov[i][j] / (se[i] * se[j]) for j in range(n)] for i in range(n)]
-    coi = _inv(cov)
+    cov, cor, coi = _three_matrices(n, inp['vs'], inp.get('cancel'))
     fails = []
     parsed_mats = {}
     live_parsed = [p for p in parsed if p in {ren(x) for x in live}]
     for suffix, mat in (('.cov', cov), ('.cor', cor), ('.coi', coi)):
         toks = {(a, b): _etok(mat[i][j]) for i, a in enumerate(live) for j, b in enumerate(live)}
+        if inp.get('cancel') and '.' + inp['cancel'][0] == suffix:
+            _assert_cancels(file_order, live, toks, inp['cancel'][1])
         text = _render_matrix(file_order, live, toks)
         with tempfile.TemporaryDirectory() as d:
             path = os.path.join(d, 'run1' + suffix)
@@ -2412,6 +2547,22 @@ def _cov_inputs(tier):
             for fixed in range(4):
                 for vs in range(6 if tier == 'thorough' else 3):
                     dom.append(dict(ntheta=ntheta, omega=omega, fixed=fixed, vs=vs))
+    # appended (the index of the inputs above is the size order of reported cases):
+    # several FIXed parameters at once; an estimated parameter whose printed row cancels to a zero sum in the
+    # cov, the cor or the coi file, alone and together with genuinely all-zero FIX rows
+    thorough = tier == 'thorough'
+    for ntheta in (1, 2, 3):
+        for omega in ('diag1', 'block2'):
+            for fixed in (4, 5, 6):
+                for vs in range(6 if thorough else 2):
+                    dom.append(dict(ntheta=ntheta, omega=omega, fixed=fixed, vs=vs))
+            for fixed in range(7):
+                file_order = _par_labels(ntheta, omega)[0]
+                n = len(file_order) - len(set(_fixset(file_order, ntheta, omega, fixed)))
+                for which in ('cov', 'cor', 'coi'):
+                    for r in range(n if n >= 2 else 0):
+                        for vs in ((0, 1) if thorough else (r % 2,)):
+                            dom.append(dict(ntheta=ntheta, omega=omega, fixed=fixed, vs=vs, cancel=[which, r]))
     return dom
 
 
@@ -2671,6 +2822,8 @@ def _json_inputs(tier):
 C_E_EXC = 'read_modelfit_results raises no exception on a complete set of NONMEM output files (ext, lst and any of cov/cor/coi)'
 C_E_ALL = 'read_modelfit_results on pheno.mod with rendered ext/cov/cor/coi: estimates, standard errors and OFV are those of the designated ext rows under the model parameter names, FIXed parameters left out'
 C_E_REL = 'covariance, correlation, precision matrix and standard errors reported together satisfy cor = D^-1 cov D^-1 (unit diagonal), precision = cov^-1, se = sqrt(diag cov) to printed precision, labelled by model parameter names'
+C_E_PHI = 'read_modelfit_results on pheno.mod with a rendered phi file: individual_ofv, individual_estimates and individual_estimates_covariance hold, under the model eta names, the printed OBJ, ETA and ETC values of exactly the individuals whose phi line is not all zero'
+PHENO_ETAS = ('ETA_CL', 'ETA_VC')
 PHENO_MAP = {'THETA1': 'POP_CL', 'THETA2': 'POP_VC', 'THETA3': 'COVAPGR', 'OMEGA(1,1)': 'IIV_CL', 'OMEGA(2,2)': 'IIV_VC',
              'SIGMA(1,1)': 'SIGMA'}
 EXAMPLE_DIR = '/repo/src/pharmpy/internals/example_models'
@@ -2687,7 +2840,7 @@ def _e2e_check(inp):
     live = [x for x in file_order if x not in fixset]
     n = len(live)
     vs = inp['vs']
-    cov = _pd_matrix(n, vs)
+    cov, cor, coi = _three_matrices(n, vs, inp.get('cancel'))
     se = [math.sqrt(cov[i][i]) for i in range(n)]
     setok = {lab: _etok(se[i]) for i, lab in enumerate(live)}
     est = {lab: ('0.00000E+00' if lab == 'OMEGA(2,1)' else _tok(vs * 3 + j * 2).lstrip('-')) for j, lab in enumerate(file_order)}
@@ -2699,10 +2852,14 @@ def _e2e_check(inp):
             (ITER_SESDC, {lab: ('0.00000E+00' if lab.startswith('THETA') else setok.get(lab, '1.00000E+10')) for lab in file_order}, '0.0000000000000000'),
             (ITER_FIX, {lab: ('1.00000E+00' if lab in fixset else '0.00000E+00') for lab in file_order}, '0.0000000000000000')]
     ext = _render_ext([dict(number=1, method=METHODS[0], file_order=file_order, rows=rows, problem=1, sub=0)])
-    cor = [[se[i] if i == j else cov[i][j] / (se[i] * se[j]) for j in range(n)] for i in range(n)]
-    coi = _inv(cov)
     fails = []
+    phi = None
+    if inp.get('phi'):
+        phi = _phi_spec(dict(netas=2, nind=len(inp['phi']), rows=inp['phi'], phc=False, vs=vs), 1)
     with tempfile.TemporaryDirectory() as d:
+        if phi is not None:
+            with open(os.path.join(d, 'pheno.phi'), 'w') as fh:
+                fh.write(_render_phi([phi]))
         for f in ('pheno.mod', 'pheno.lst', 'pheno.dta', 'pheno.datainfo'):
             if os.path.exists(os.path.join(EXAMPLE_DIR, f)):
                 shutil.copy(os.path.join(EXAMPLE_DIR, f), os.path.join(d, f))
@@ -2711,6 +2868,8 @@ def _e2e_check(inp):
         for suffix, mat in (('cov', cov), ('cor', cor), ('coi', coi)):
             if suffix in inp['files']:
                 toks = {(a, b): _etok(mat[i][j]) for i, a in enumerate(live) for j, b in enumerate(live)}
+                if inp.get('cancel') and inp['cancel'][0] == suffix:
+                    _assert_cancels(file_order, live, toks, inp['cancel'][1])
                 with open(os.path.join(d, 'pheno.' + suffix), 'w') as fh:
                     fh.write(_render_matrix(file_order, live, toks))
         try:
@@ -2727,6 +2886,33 @@ def _e2e_check(inp):
     if not ok:
         fails.append((FID_PARSE, C_E_ALL, f'{json.dumps(_js(inp))}: estimates {pe.to_dict()} se {None if ses is None else ses.to_dict()} '
                                           f'ofv {res.ofv}; written {want_pe} / {want_se} / {objf} | ext:\n{ext}'))
+    if phi is not None:
+        keep = [r for r in phi['rows'] if any(float(v) != 0 for v in r[2].values()) or float(r[3]) != 0]
+        ids = [r[1] for r in keep]
+        enames = list(PHENO_ETAS)
+        try:
+            iofv, ie, iec = res.individual_ofv, res.individual_estimates, res.individual_estimates_covariance
+            ok = iofv is not None and ie is not None and iec is not None
+            ok = ok and [int(x) for x in iofv.index] == ids and [int(x) for x in ie.index] == ids
+            ok = ok and [int(x) for x in iec.index] == ids and list(ie.columns) == enames
+            for i, r in enumerate(keep):
+                ok = ok and _close(iofv.iloc[i], float(r[3]), 0, 0)
+                m = iec.iloc[i] if ok else None
+                ok = ok and list(m.index) == enames and list(m.columns) == enames
+                for a in (1, 2):
+                    ok = ok and _close(ie.iloc[i, a - 1], float(r[2][f'ETA({a})']), 0, 0)
+                    for b in range(1, a + 1):
+                        w = float(r[2][f'ETC({a},{b})'])
+                        ok = ok and _close(m.iloc[a - 1, b - 1], w, 0, 0) and _close(m.iloc[b - 1, a - 1], w, 0, 0)
+            if not ok:
+                fails.append((FID_PARSE, C_E_PHI, f'{json.dumps(_js(inp))}: individual_ofv '
+                                                  f'{None if iofv is None else iofv.to_dict()} individual_estimates '
+                                                  f'{None if ie is None else ie.to_dict("index")} covariance of '
+                                                  f'{None if iec is None else list(iec.index)}; expected individuals {ids} | phi:\n'
+                                                  f'{_render_phi([phi])}'))
+        except Exception as e:
+            fails.append((FID_PARSE, C_E_PHI, f'{json.dumps(_js(inp))}: raised {type(e).__name__}: {e} | phi:\n'
+                                              f'{_render_phi([phi])}'))
     if inp['files']:
         idx = {PHENO_MAP[x]: i for i, x in enumerate(live)}
         rc, rr, rp = res.covariance_matrix, res.correlation_matrix, res.precision_matrix
@@ -2752,13 +2938,25 @@ def _e2e_inputs(tier):
         for fixed in range(4):
             for vs in ((0, 1, 2) if tier == 'thorough' else (0,)):
                 dom.append(dict(files=files, fixed=fixed, vs=vs))
+    # appended: an estimated parameter whose printed row cancels to a zero sum in one of the matrix files;
+    # a phi file with lines that contain exact zeros in some columns
+    thorough = tier == 'thorough'
+    for files in (['cov'], ['cor'], ['coi'], ['cov', 'cor'], ['cov', 'coi'], ['cor', 'coi'], ['cov', 'cor', 'coi']):
+        for fixed in (range(4) if thorough else (0, 2)):
+            for which in (files if thorough else files[:1]):
+                for r in (range(5) if thorough else ((0, 3) if len(files) == 1 else (1,))):
+                    dom.append(dict(files=files, fixed=fixed, vs=r % 2, cancel=[which, r]))
+    kinds = PHI_ROW_KINDS if thorough else ['full', 'allzero', 'eta_fix_last', 'etc_offdiag', 'fo', 'only_obj']
+    for rows in [(k,) for k in kinds] + [('full', k, 'full') for k in kinds] + \
+            ([(a, b) for a in kinds for b in kinds] if thorough else [('eta_fix_first', 'allzero'), ('obj0', 'one_etc')]):
+        dom.append(dict(files=[], fixed=0, vs=0, phi=list(rows)))
     return dom
 
 
 NM_KINDS = {
     'ext': (_ext_check, _ext_inputs, 16),
-    'phi': (_phi_check, _phi_inputs, 2),
-    'covm': (_cov_check, _cov_inputs, 2),
+    'phi': (_phi_check, _phi_inputs, 6),
+    'covm': (_cov_check, _cov_inputs, 6),
     'tab': (_tab_check, _tab_inputs, 1),
     'imath': (_imath_check, _imath_inputs, 1),
     'json': (_json_check, _json_inputs, 4),
@@ -2803,10 +3001,17 @@ def bounded_nonmem_tables(tier):
     bound = (f'ext files: <= 3 thetas x (1 omega | 2x2 omega block) x sigma, 4 FIX patterns, 5 iteration lists, all 32 '
              f'combinations of the special rows (-1000000000 / -1000000001,-2 / -3 / -4,-5 / -6,-7,-8), 7 method titles, '
              f'{3 if th else 1} value set(s), plus files with {3 if th else 2} estimation steps; phi: <= 3 etas x <= 3 individuals x '
-             f'all-zero individual x ETA|PHI x 1-2 tables; cov/cor/coi: same parameter configurations x {6 if th else 3} positive '
-             f'definite matrices; $TABLE: <= 3 tables x <= 7 columns x <= 5 rows x repeated headers; triangular numbers n <= '
+             f'all-zero individual x ETA|PHI x 1-2 tables, plus every assignment of {len(PHI_ROW_KINDS)} line kinds (no zero, all zero '
+             f'= no observations, one ETA fixed to 0 with its ETC entries, zero off-diagonal ETC, all ETAs 0, OBJ 0, only OBJ '
+             f'non-zero, one non-zero ETC) to <= {3 if th else 2} individuals{"" if th else " and of 4 kinds to 3 individuals"}; '
+             f'cov/cor/coi: same parameter configurations x {6 if th else 3} positive '
+             f'definite matrices, plus 3 patterns of several FIXed parameters at once, plus for each of 7 FIX patterns, each of '
+             f'the three files and every estimated parameter a positive definite matrix of dyadic entries whose printed row of '
+             f'that parameter has no zero but sums to exactly 0; $TABLE: <= 3 tables x <= 7 columns x <= 5 rows x repeated headers; triangular numbers n <= '
              f'{60 if th else 6}; JSON: all subsets of 5 field groups x short/17-digit floats; pheno end-to-end: 8 cov/cor/coi file '
-             f'subsets x 4 FIX patterns')
+             f'subsets x 4 FIX patterns, plus cancelling rows in each file subset ({"4 FIX patterns x every file x 5 rows" if th else "2 FIX patterns, first file, 1-2 rows"}) '
+             f'and a rendered phi file with {"every pair of line kinds" if th else "6 line kinds alone and between two full lines"} '
+             f'(individual_ofv / individual_estimates / individual_estimates_covariance)')
     return col.result(bound)
 
 
